@@ -19,6 +19,41 @@ VERIF = boot.VERIF
 # --------------------------------------------------------------------------------------
 # violations
 
+class CpuBudgetExceeded(BaseException):
+    """raised inside the code under test when one case has used more CPU time than any case needs:
+    a BaseException so that `except Exception` in the code under test does not swallow it"""
+
+
+class cpu_limit:
+    """with cpu_limit(seconds): ...  -- user-mode CPU time of this process (ITIMER_VIRTUAL), so a
+    starved machine does not trip it; only meaningful in the main thread of a process"""
+
+    def __init__(self, seconds):
+        self.seconds = seconds
+
+    def __enter__(self):
+        import signal
+
+        def fire(signum, frame):
+            raise CpuBudgetExceeded(f"more than {self.seconds}s of CPU time in one case")
+        try:
+            self.old = signal.signal(signal.SIGVTALRM, fire)
+            # re-fires every second after the first expiry: an exception raised from the handler while
+            # the interpreter is inside a callback that ignores exceptions (gc hooks) would otherwise be lost
+            signal.setitimer(signal.ITIMER_VIRTUAL, self.seconds, 1.0)
+            self.armed = True
+        except ValueError:          # not the main thread
+            self.armed = False
+        return self
+
+    def __exit__(self, *a):
+        import signal
+        if self.armed:
+            signal.setitimer(signal.ITIMER_VIRTUAL, 0)
+            signal.signal(signal.SIGVTALRM, self.old)
+        return False
+
+
 class Violation(Exception):
     """Raised by a property body when the real system deviates from the oracle.
 
